@@ -55,7 +55,8 @@ def specWrappers (fresh : Nat) (ws : List (Sum Wrapper (List (Nat × Nat)))) : L
     | .inl w => [w]
     | .inr m => renameMapWrappers fresh m
 
-/-- `(c03 ctx (inits …) (resetless …) (doms cfg*) (actual (proc dom stmt)*) (leaves (leaf dom (wrappers w*) (prog item*))*) (step (env …) (chg (i v)*))*)` -/
+/-- `(c03 ctx (inits …) (resetless …) (doms cfg*) (actual (proc dom stmt)*) (leaves (leaf dom (wrappers w*) (prog item*))*) (step (env …) (chg (i v)*))*)`
+with `w` = `(reset dom ctl)` | `(enable dom ctl)` | `(rename src dst)` | `(renamemap (src dst)*)`, innermost first -/
 def handleC03 : Sexp → Option String
   | .list (.atom "c03" :: c :: ini :: rl :: .list (.atom "doms" :: ds) :: .list (.atom "actual" :: ps) ::
       .list (.atom "leaves" :: ls) :: steps) => do
